@@ -26,8 +26,15 @@ func NewChannelMgr(cfg *Config, defaultTimeShiftBufferDepthS, defaultReceiveNrRa
 	}
 }
 
+// AddChannel adds a channel unless one with that name already exists.
+// The check is made under the write lock, so that concurrent first uploads
+// of several tracks of one channel end up with one and the same channel.
 func (cm *ChannelMgr) AddChannel(ctx context.Context, chName, chDir string) {
 	cm.mu.Lock()
+	defer cm.mu.Unlock()
+	if _, ok := cm.channels[chName]; ok {
+		return
+	}
 
 	chCfg := ChannelConfig{
 		Name:                 chName,
@@ -40,18 +47,17 @@ func (cm *ChannelMgr) AddChannel(ctx context.Context, chName, chDir string) {
 				break
 			}
 		}
-	}
-	if cm.cfg.DefaultUser != "" && chCfg.AuthUser == "" {
-		chCfg.AuthUser = cm.cfg.DefaultUser
-	}
-	if cm.cfg.DefaultPswd != "" && chCfg.AuthPswd == "" {
-		chCfg.AuthPswd = cm.cfg.DefaultPswd
+		if cm.cfg.DefaultUser != "" && chCfg.AuthUser == "" {
+			chCfg.AuthUser = cm.cfg.DefaultUser
+		}
+		if cm.cfg.DefaultPswd != "" && chCfg.AuthPswd == "" {
+			chCfg.AuthPswd = cm.cfg.DefaultPswd
+		}
 	}
 	if chCfg.TimeShiftBufferDepthS == 0 {
 		chCfg.TimeShiftBufferDepthS = cm.defaultTimeShiftBufferDepthS
 	}
 	cm.channels[chName] = newChannel(ctx, chCfg, chDir)
-	cm.mu.Unlock()
 }
 
 func (cm *ChannelMgr) GetChannel(chName string) (*channel, bool) {
